@@ -312,6 +312,30 @@ pub fn catalogue(rng: &mut Rng) -> Vec<Scenario> {
             }
         }
     }
+    // S4c: a query that has already found the holder of a replaceable / parameterised address, parked anywhere up
+    //      to its last step, while a store replaces that holder: the answer is the old holder or the new one, never
+    //      neither and never both
+    for (kind, tags) in [(10002u16, vec![]), (30023u16, vec![vec!["d".to_string(), "x".to_string()]])] {
+        let mut ev = base(rng);
+        ev.push(mk(rng, 0, kind, 170, tags.clone()));
+        let n = ev.len();
+        let holder = if kind == 10002 { 2 } else { 3 };
+        let filters = vec![
+            SemFilter { authors: vec![author(0)], kinds: vec![kind], ..SemFilter::empty() },
+            SemFilter { authors: vec![author(0)], ..SemFilter::empty() },
+            SemFilter { kinds: vec![kind], ..SemFilter::empty() },
+            SemFilter { ids: vec![ev[holder].sem.id, ev[n - 1].sem.id], ..SemFilter::empty() },
+        ];
+        for fi in 0..filters.len() {
+            v.push(Scenario {
+                name: format!("parked-query-{}-vs-replacing-store-k{kind}", plan_of(&filters[fi])),
+                events: ev.clone(),
+                filters: filters.clone(),
+                prepopulate: vec![0, 1, 2, 3],
+                ops: vec![Opk::Find(fi), Opk::Store(n - 1)],
+            });
+        }
+    }
     // S5: remove vs query / get
     {
         let ev = base(rng);
